@@ -31,7 +31,7 @@ def switches(ctx):
     return sw, cfg
 
 
-def h_dest(ctx, N, mode, prefix=(), limits=2):
+def h_dest(ctx, N, mode, prefix=(), limits=2, reject=False):
     w = World(ctx)
     mode = ACK if mode == "ack" else UNACK
     sw, icfg = switches(ctx)
@@ -40,6 +40,9 @@ def h_dest(ctx, N, mode, prefix=(), limits=2):
                      rig_kwargs={"indications": icfg, "immediate_nak": True, "ack_limit": limits,
                                  "nak_limit": limits, "check_limit": limits})
     S = sc.S
+    if reject:
+        # the filestore refuses to create / truncate the destination file (default handler: cancellation)
+        sc.rig.fs.reject = lambda kind, p: PermissionError if kind in ("create", "truncate") else None
     if prefix:
         ctx.assume(S <= hdst.LMAX)
     alphabet = ["MD", "FD", "EOF", "EOFC", "TICK", "CANCEL"] + (["ACKFIN"] if mode == ACK else [])
@@ -104,8 +107,9 @@ def h_dest(ctx, N, mode, prefix=(), limits=2):
         else:
             ctx.prop("segment_indication_only_for_file_data", len(segs) == 0)
         mds = [e for e in o.ind if e[0] == "metadata_recv"]
-        if ev[0] == "MD" and any(c[0] in ("create", "truncate") for c in o.fs):
-            ctx.covered("md_accepted")
+        if ev[0] == "MD" and any(c[0] in ("create", "truncate", "rejected") for c in o.fs):
+            # the Metadata PDU was taken up (file creation attempted, whether or not the filestore allowed it)
+            ctx.covered("md_rejected_by_filestore" if any(c[0] == "rejected" for c in o.fs) else "md_accepted")
             ctx.prop("metadata_indication_delivered", len(mds) == 1)
         for e in mds:
             ctx.prop("metadata_indication_only_for_metadata", ev[0] == "MD")
@@ -251,6 +255,10 @@ def plan(tier):
                           twin_share=0.05, obligations=["finished_pdu"]))
     specs.append(Spec(f"dest/unack/after-eof-missing/limits=1/N={3 if q else 4}", "vf.harness.c15:h_dest",
                       {"N": 3 if q else 4, "mode": "unack", "prefix": ["MD", "EOF"], "limits": 1}, twin_share=0.05))
+    for mode in ("ack", "unack"):
+        specs.append(Spec(f"dest/{mode}/file-creation-rejected/N=3", "vf.harness.c15:h_dest",
+                          {"N": 3, "mode": mode, "reject": True}, twin_share=0.05,
+                          obligations=["md_rejected_by_filestore"]))
     t = 2 if q else 3
     for mode, pre in (("ack", "md"), ("ack", "sm2"), ("ack", "sm3"), ("ack", "eof_acked"), ("ack", "fin_rcvd"),
                       ("unack", "md"), ("unack", "sm2"), ("unack", "sm3"), ("unack", "fin_rcvd")):
